@@ -428,6 +428,16 @@ func (p stProp) Gen(r *Rand, idx int, tier string) Sx {
 					nextTid++
 					ops = append(ops, L(A(4), AI(tg), AI(target), AI(ti)))
 					later = turn()
+					if r.Chance(50) && len(later) > 0 {
+						// an existence check of an object that has aged meanwhile: its refresh has to
+						// allocate while the held reader still pins a released block (with few spare
+						// blocks the allocation fails - the source buffer must still be released)
+						di := ti
+						if !instKeys {
+							di = 0
+						}
+						ops = append(ops, L(A(6), L(L(AI(later[0]), AI(di)))))
+					}
 					ops = append(ops, L(A(5), AI(tg)))
 				} else if len(objs[target]) >= 2 {
 					tu := nextTid
